@@ -793,3 +793,39 @@ class DecoyFromArgs(Contract):
 
 
 NATIVE = [NativeDecoy()]
+
+
+# ----------------------------------------------------------------------------
+# the records reach the file
+# ----------------------------------------------------------------------------
+from .c18c import PoolWrite as _PoolWrite18
+
+
+@register
+class DecoyWrite(_PoolWrite18):
+    """DecoyFasta.write(): the output path is opened once for writing; every record of iterate_target_decoy_database() (targets and decoys in the requested
+    order, under its own contract) is handed to the FASTA writer exactly once, in that order, titled with its description"""
+    path, qualname, props = 'moPepGen/cli/decoy_fasta.py', 'DecoyFasta.write', ('C20',)
+
+    def setup(self, I):
+        st = types.SimpleNamespace(log=[])
+        st.n = I.e.int('n_records')
+        I.e.assume(st.n >= 0)
+        zz = lambda i: i if is_z3(i) else z3.IntVal(i)
+        st.records = FnView(st.n, lambda i: SymObj('Pep18w', i=zz(i), description=SymObj('Header18w', i=zz(i)), id=SymObj('FirstWord18w', i=zz(i)), name=SymObj('FirstWord18w', i=zz(i))),
+                            tag='targets and decoys in the requested order')
+        st.target = SymObj('OutPath18w')
+        other = lambda tag: FnView(I.e.int('n_' + tag), lambda i: SymObj('Unordered20w', i=zz(i), description=SymObj('Header18w', i=zz(i))), tag=tag)
+        st.decoy = SymObj('DecoyFasta20w', output_path=st.target, target_db=other('targets'), decoy_db=other('decoys'), order='juxtaposed')
+        st.args = [st.decoy]
+        self._cur = st
+        return st
+
+    @property
+    def models(self):
+        c = self
+        base = super().models
+
+        def inst(reg):
+            reg.method_('DecoyFasta20w', 'iterate_target_decoy_database', lambda I, o, a, k: c._cur.records)
+        return base + (inst,)
